@@ -1,11 +1,15 @@
 (** C16 — /include is transparent for loading and preserved by writing.
     Statements about the model of tokenizer.rs tokenize() (Lex/Include.v): include expansion against a file-system
     oracle, file ids, and the attribution of nested includes to a directive of the main file (which is what the
-    writer prints).  Transparency with respect to the flattened TEXT, reload equality and merge_includes() are
-    evaluated on the implementation and by the extracted model (tokenizer + parser + writer over several files),
-    not proved; path handling of the operating system is outside the model: C16 is a partial proof. *)
-From Coq Require Import Ascii String List Bool NArith.
-From A2L Require Import Text.Escape Lex.Tokenizer Lex.Include Proofs.IncludeProofs.
+    writer prints), and about the parser (Proofs/ProvenanceProofs.v): the model that is built depends on the types and
+    texts of the tokens only - not on the files they come from or the lines they stand on, which reach nothing but the
+    layout data and the positions of diagnostics.  So loading through /include gives the model of ANY token list with the
+    same types and texts, in particular of the tokens of the flattened text.  That the tokenizer cuts the flattened TEXT
+    into exactly these tokens, reload equality and merge_includes() are evaluated on the implementation and by the
+    extracted model (tokenizer + parser + writer over several files), not proved; path handling of the operating system
+    is outside the model: C16 is a partial proof. *)
+From Coq Require Import Ascii String List Bool NArith ZArith.
+From A2L Require Import Text.Escape Lex.Tokenizer Lex.Include Gram.Spec Gram.PState Gram.Parser Proofs.IncludeProofs Proofs.ProvenanceProofs Proofs.SpliceProofs.
 Import ListNotations.
 
 (* a file without directives is tokenised exactly like before, and it is the only file *)
@@ -38,3 +42,90 @@ Theorem C16_nested_includes_belong_to_a_directive_of_the_main_file : forall fs f
       In d (match tokenize_core 0 text with TOk t => directives t | _ => [] end).
 Proof. exact nested_includes_belong_to_a_directive_of_the_main_file. Qed.
 Print Assumptions C16_nested_includes_belong_to_a_directive_of_the_main_file.
+
+(* ---------- the parser does not look at where a token comes from ---------- *)
+(* two runs of parse_file on token lists with the same types and texts (other files, other lines, other file tables), in
+   the same mode with the same A2ML definitions: unless one of them hits a panic site of the model, both succeed with
+   values that are equal once the layout data is erased (which is what == of the library compares), or both fail with
+   the same error; and they log the same warnings *)
+Theorem C16_model_depends_on_token_types_and_texts_only : forall G toks1 toks2 strict n1 n2 ftab specs oracle r1 s1 r2 s2,
+  map tshape toks1 = map tshape toks2 ->
+  parse_file G (init_state_a2ml toks1 strict n1 ftab specs oracle) = (r1, s1) ->
+  parse_file G (init_state_a2ml toks2 strict n2 ftab specs oracle) = (r2, s2) ->
+  panics r1 \/ panics r2 \/
+  (match r1, r2 with
+   | ROk v1, ROk v2 => er_value v1 = er_value v2
+   | RErr d1, RErr d2 => er_diag d1 = er_diag d2
+   | RFuel, RFuel => True
+   | _, _ => False
+   end /\ map er_diag (ps_log s1) = map er_diag (ps_log s2)).
+Proof.
+  intros G toks1 toks2 strict n1 n2 ftab specs oracle r1 s1 r2 s2 H E1 E2.
+  assert (Q : seq (init_state_a2ml toks1 strict n1 ftab specs oracle) (init_state_a2ml toks2 strict n2 ftab specs oracle))
+    by (constructor; cbn; solve [reflexivity | exact H]).
+  destruct (sim_parse_file G _ _ _ _ _ _ Q E1 E2) as [P|[P|[Q' Rr]]]; [left; exact P | right; left; exact P|].
+  right. right. split; [exact Rr | exact (q_log _ _ Q')].
+Qed.
+Print Assumptions C16_model_depends_on_token_types_and_texts_only.
+
+(* the scanner hands the file id through to the tokens and does nothing else with it *)
+Theorem C16_scanner_does_not_look_at_the_file_id : forall f text,
+  tokenize_core f text = res_map (map (sf f)) (tokenize_core 0 text).
+Proof. exact tokenize_core_fileid. Qed.
+Print Assumptions C16_scanner_does_not_look_at_the_file_id.
+
+(* the include expansion, on types and texts: the token list of the named file stands where the two tokens of the
+   directive stood, recursively; file ids, display names and counters play no part *)
+Theorem C16_expansion_splices_token_lists : forall fs fuel f fid text toks files,
+  tokenize_inc fs fuel f fid text = IOk toks files -> stokenize fs fuel (fn_full f) text = Some (map tshape toks).
+Proof. exact tokenize_inc_shapes. Qed.
+Print Assumptions C16_expansion_splices_token_lists.
+
+(* together: loading a file through its /include directives builds the model that parsing ANY token list with the spliced
+   types and texts builds - e.g. the token list of one file whose text is cut into these tokens *)
+Theorem C16_include_loading_is_loading_the_spliced_tokens : forall fs fuel main text toks files G flat strict n1 n2 ftab specs oracle r1 s1 r2 s2,
+  tokenize_inc fs fuel main 0 text = IOk toks files ->
+  stokenize fs fuel (fn_full main) text = Some (map tshape flat) ->
+  parse_file G (init_state_a2ml toks strict n1 ftab specs oracle) = (r1, s1) ->
+  parse_file G (init_state_a2ml flat strict n2 ftab specs oracle) = (r2, s2) ->
+  panics r1 \/ panics r2 \/
+  (match r1, r2 with
+   | ROk v1, ROk v2 => er_value v1 = er_value v2
+   | RErr d1, RErr d2 => er_diag d1 = er_diag d2
+   | RFuel, RFuel => True
+   | _, _ => False
+   end /\ map er_diag (ps_log s1) = map er_diag (ps_log s2)).
+Proof.
+  intros fs fuel main text toks files G flat strict n1 n2 ftab specs oracle r1 s1 r2 s2 E Hs E1 E2.
+  apply (C16_model_depends_on_token_types_and_texts_only G toks flat strict n1 n2 ftab specs oracle r1 s1 r2 s2); [|exact E1 | exact E2].
+  pose proof (tokenize_inc_shapes fs fuel main 0 text toks files E) as H. rewrite Hs in H. injection H as H. symmetry. exact H.
+Qed.
+Print Assumptions C16_include_loading_is_loading_the_spliced_tokens.
+
+(* what is erased: line, line offsets, include attribution of elements and comments - nothing else *)
+Example C16_erasure_keeps_the_data :
+  er_value (VNode "Measurement" (mkLay 7%N 12%N 1%N 2%N (Some 3%nat)) [VScalar (SText (bytes_of "speed")) 4%N; VScalar (SInt 5%Z true) 0%N] [[]]
+              [mkCm (bytes_of "/* c */") 8%N 12%N 1%N true])
+  = VNode "Measurement" (mkLay 7%N 0%N 0%N 0%N None) [VScalar (SText (bytes_of "speed")) 0%N; VScalar (SInt 5%Z true) 0%N] [[]]
+      [mkCm (bytes_of "/* c */") 8%N 0%N 0%N false].
+Proof. reflexivity. Qed.
+
+(* the premises are met: a main file with a directive, the file it names, and the flattened text - the expansion yields two
+   files, and the scanner cuts the flattened text into tokens with exactly the spliced types and texts *)
+Definition demo_inc : bytes := bytes_of "/begin MEASUREMENT m """" UBYTE cm 0 0 0 255 /* c */ /end MEASUREMENT".
+Definition demo_fs (base name : bytes) : option (bytes * bytes) :=
+  if bytes_eqb name (bytes_of "inc.a2l") then Some (bytes_of "dir/inc.a2l", demo_inc) else None.
+Definition demo_main : bytes := bytes_of "ASAP2_VERSION 1 71 /begin PROJECT p """" /begin MODULE m """"
+  /include ""inc.a2l""
+  /end MODULE /end PROJECT".
+Definition demo_flat : bytes := bytes_of "ASAP2_VERSION 1 71 /begin PROJECT p """" /begin MODULE m """"
+  /begin MEASUREMENT m """" UBYTE cm 0 0 0 255 /* c */ /end MEASUREMENT
+  /end MODULE /end PROJECT".
+Example C16_premises_are_met :
+  exists toks files flat,
+    tokenize_inc demo_fs 4 (mkFn (bytes_of "dir/main.a2l") (bytes_of "main.a2l") None) 0 demo_main = IOk toks files /\
+    length files = 2%nat /\
+    tokenize_core 0 demo_flat = TOk flat /\
+    stokenize demo_fs 4 (bytes_of "dir/main.a2l") demo_main = Some (map tshape flat) /\
+    existsb (fun t => Nat.eqb (tk_fileid t) 1) toks = true.
+Proof. eexists. eexists. eexists. split; [vm_compute; reflexivity|]. split; [reflexivity|]. split; [vm_compute; reflexivity|]. split; vm_compute; reflexivity. Qed.
